@@ -46,7 +46,8 @@ func (t *DataTokenizer) Tokenize(data []byte, context common.TokenContext, setti
 	tokenType := setting.GetTokenType()
 	switch tokenType {
 	case common.TokenType_Int32:
-		i, err := strconv.ParseInt(string(data), 10, 64)
+		// bitSize 32: text outside the int32 range is an error, not a silently truncated number
+		i, err := strconv.ParseInt(string(data), 10, 32)
 		if err != nil {
 			return nil, err
 		}
@@ -100,7 +101,7 @@ func (t *DataTokenizer) Detokenize(data []byte, context common.TokenContext, set
 	tokenType := setting.GetTokenType()
 	switch tokenType {
 	case common.TokenType_Int32:
-		i, err := strconv.ParseInt(string(data), 10, 64)
+		i, err := strconv.ParseInt(string(data), 10, 32)
 		if err != nil {
 			return nil, err
 		}
